@@ -4,6 +4,7 @@ import NmVerif.Containers.Spec
 import NmVerif.Containers.Vector
 import NmVerif.Containers.StaticVector
 import NmVerif.Containers.Either
+import NmVerif.Containers.SmallVector
 /-
   Driver for C19: `hist kind=<vec|…> elem=<int|double> ops=<op>;<op>;…` runs the history on the MODEL and prints,
   after every operation, the client-visible state of slots 0 and 1 (spec part), the internal state
@@ -74,14 +75,16 @@ def trace (I : Impl σ Int) (intern : σ → String) (ops : List (Op Int)) : Str
   let wEnd := run I w ((List.range nSlots).map Op.destroy)
   let L := wEnd.led
   let badFree := L.freed.length - L.freed.eraseDups.length + (L.freed.filter (fun b => decide (L.allocs ≤ b))).length
-  let badLife := (L.events.filter (fun e => e == .uninitAssign || e == .overLive || e == .destroyDead)).length
-  let fin := s!"leak={(L.allocs : Int) - L.freed.length} live={(L.ctors : Int) - L.dtors} bad={badFree + badLife}"
+  let fin := s!"leak={(L.allocs : Int) - L.freed.length} live={(L.ctors : Int) - L.dtors} bad={badFree}"
   s!"ok {"|".intercalate ss} # {"|".intercalate is} # {fin}"
 
 def vecIntern (v : Vec Int) : String := s!"{v.cap}:{fmtCells (v.cells.drop v.size)}"
 
 def svecIntern (c : Nat) (v : SVec Int) : String := s!"{c}:{fmtCells (v.cells.drop v.size)}"
 def arrIntern (c : Nat) (_ : SVec Int) : String := s!"{c}:"
+
+def smallIntern (c : Nat) (x : Small Int) : String :=
+  if x.tagS then s!"S{c}:{fmtCells (x.st.cells.drop x.st.size)}" else s!"D{x.dy.cap}:{fmtCells (x.dy.cells.drop x.dy.size)}"
 
 /-! either / maybe -/
 
@@ -148,6 +151,7 @@ def handle : Handler := fun op a =>
       | "vec" => pure (trace (vecImpl Int) vecIntern ops)
       | "svec" => pure (trace (svecImpl 4 (0 : Int)) (svecIntern 4) ops)
       | "arr" => pure (trace (arrImpl 3 (0 : Int)) (arrIntern 3) ops)
+      | "small" => pure (trace (smallImpl 4 (0 : Int)) (smallIntern 4) ops)
       | _ => none
   | "ehist" => orBad do
       let kind ← a.get? "kind"
